@@ -29,8 +29,8 @@ def _ids(rows) -> Set[str]:
 
 
 def check(ctx: Ctx, rep: Report, thorough: bool = False):
-    rep.rule("C15.R1", "keys of read_runtime_data() equal the ids of sensors() right after the call, on every returning path of every configuration", 20)
-    rep.rule("C15.R2", "with any subset of optional blocks refused, read_runtime_data() returns no later than the second call", 20)
+    rep.rule("C15.R1", "keys of read_runtime_data() equal the ids of sensors() right after the call, on every returning path of every configuration", 12)
+    rep.rule("C15.R2", "with any subset of optional blocks refused, read_runtime_data() returns no later than the second call", 12)
     rep.rule("C15.R3", "ES: sensors() and read_runtime_data() name the same table", 1)
     total_states = total_paths = 0
     for famname in ("ET", "DT"):
@@ -92,8 +92,15 @@ def check(ctx: Ctx, rep: Report, thorough: bool = False):
     r3(ctx, rep)
 
 
+_NAMES_CACHE: Dict = {}
+
+
 def _names_used(fam: Family, methods) -> Set[str]:
+    ck = (id(fam), tuple(methods))
+    if ck in _NAMES_CACHE:
+        return _NAMES_CACHE[ck]
     out: Set[str] = set()
+    _NAMES_CACHE[ck] = out
     for mname in methods:
         m = fam.ci.methods.get(mname)
         if m is None:
